@@ -219,9 +219,11 @@ def main():
         print("KNOWN-FINDING: property=%s %s" % (prop, h["what"]))
     write_evidence(prop, tier, seed, t0, results, violations, undecided, {"generator": ginfo, "index": index},
                    inconclusive=inconclusive, known_hits=[h["id"] for h, _ in known_hits])
-    for vi in violations:
+    for vi in violations[:12]:
         print("VIOLATION property=%s replay=%s" % (prop, vi["replay"]))
         print("  " + vi["what"])
+    if len(violations) > 12:
+        print("(%d more violations; all are listed in %s)" % (len(violations) - 12, os.path.join(EVIDENCE_DIR, prop + ".json")))
     if violations:
         sys.exit(1)
     if inconclusive:
